@@ -86,7 +86,16 @@ func execute(d *dev) (run *hist.Run, blocks int, applied int) {
 			blocksWithRecovered++
 		}
 	}}
-	if d != nil && d.Gov != "" {
+	if d != nil && d.Gov == "fast-forward" {
+		// bound-1 deviation of the history's length: 2000 further messages' worth of ids at one point
+		at := map[string]int{"early": 12, "mid": 75, "late": 250}[d.Value]
+		h.BeforeBlock = func(i int, r *hist.Run) {
+			if i == at {
+				r.FastForwardMessageIDs(2000)
+				applied++
+			}
+		}
+	} else if d != nil && d.Gov != "" {
 		h.AfterSetup = func(r *hist.Run) {
 			if applyGov(r, d.Gov, d.Value) {
 				applied++
@@ -123,6 +132,8 @@ func run(r *report.Run, shard, nshards int, replayFile string) {
 		"deviation bound 1: one field of one message type is hostile per execution (all transactions of that type in the first block where it occurs, or all occurrences)",
 		"only message types occurring in the scripted history are mutated; the version gate of CheckChainVersion is not in the alphabet",
 		"part B (isolation): 8 kinds of unprocessable evidence x {one validator, all validators} x 5 placements (older/younger message of the same queue, other queue) next to a healthy message holding quorum evidence; the healthy message must be attested by the same end-block as without the poison",
+		"part C (version gate): 13 running versions x 15 completed upgrade names through the real upgrade keeper and CheckChainVersion: a node on the same release line and not older must never be stopped, an older node must be stopped; a newer release line is left unconstrained (the code stops it too)",
+		"history-length deviations: the global message id counter is advanced by 2000 at block 12 / 75 / 250 (what 2000 further queued messages would do), so id-keyed aging rules (metrix scoring window of 1000 messages) meet old records",
 		"a panic that module code recovers and logs (skyway end-blocker, listed by the property as a protective mechanism) is a violation only when it recurs in >= 3 different blocks (the module's remaining end-block work is then skipped persistently); one-off recovered panics are listed in the evidence as transient",
 	}
 	if replayFile != "" {
@@ -137,6 +148,10 @@ func run(r *report.Run, shard, nshards int, replayFile string) {
 		if err != nil {
 			fmt.Fprintln(os.Stderr, err)
 			os.Exit(2)
+		}
+		if m, ok := v.Replay.(map[string]interface{}); ok && m["gate"] != nil {
+			versionGate(r)
+			return
 		}
 		if m, ok := v.Replay.(map[string]interface{}); ok && m["isolation"] != nil {
 			isolation(r) // the isolation product is small: re-run it completely
@@ -153,6 +168,9 @@ func run(r *report.Run, shard, nshards int, replayFile string) {
 	}
 	if shard == nshards-1 {
 		isolation(r)
+	}
+	if shard == (nshards-1)/2 {
+		versionGate(r)
 	}
 	// baseline: collect leaves, must itself be clean
 	leaves := map[leaf]bool{}
@@ -195,6 +213,9 @@ func run(r *report.Run, shard, nshards int, replayFile string) {
 				devs = append(devs, dev{MsgType: l.MsgType, Field: l.Field, Kind: l.Kind, Value: val, Mode: "all"})
 			}
 		}
+	}
+	for _, at := range []string{"early", "mid", "late"} {
+		devs = append(devs, dev{Gov: "fast-forward", Value: at, Kind: "history", Mode: "ids+2000"})
 	}
 	for _, g := range govMenu() {
 		for _, v := range g.Values {
